@@ -40,10 +40,19 @@ def prove(oid, kind, program, inputs, assume, run, post, concrete=None, max_path
 
     try:
         paths = explore(scenario, assumptions=assume, max_paths=max_paths)
-    except Inconclusive as e:
-        return dict(res, status=INCONCLUSIVE, detail=f"Inconclusive: {e}")
-    except Unsupported as e:
-        return dict(res, status=INCONCLUSIVE, detail=f"Unsupported: {e}")
+    except (Inconclusive, Unsupported) as e:
+        # The code left the supported subset (floats, huge case splits...).  The obligation stays
+        # inconclusive, unless a concrete probe at the boundary values of the inputs already shows a
+        # reproducing violation (a true counterexample is reportable however it was found).
+        probe = _boundary_probe(inputs, assume, concrete or run, post)
+        if probe is not None:
+            vals, cres, cexc = probe
+            detail = (f"{program} with {vals}: real code gives "
+                      f"{('raises ' + type(cexc).__name__ + ': ' + str(cexc)) if cexc else _show(cres)} "
+                      f"(found by the boundary probe after the symbolic run left the supported subset: {type(e).__name__}: {e})")
+            return dict(res, status=VIOLATION, detail=detail, cex={"inputs": vals, "result": _show(cres)},
+                        signature={"kind": kind, "program": program}, replay={"oid": oid, "inputs": vals})
+        return dict(res, status=INCONCLUSIVE, detail=f"{type(e).__name__}: {e}")
     reach = 0
     for p in paths:
         if p.exc is not None:
@@ -80,6 +89,48 @@ def prove(oid, kind, program, inputs, assume, run, post, concrete=None, max_path
         return dict(res, status=ERROR, detail="vacuous: no feasible path")
     res["paths"] = len(paths)
     return dict(res, status=PROVED)
+
+
+def _boundary_probe(inputs, assume, fn, post, limit=3000):
+    """Concrete runs of the real code at interval ends, 0, +-1 and +-2**k (+-1) of every symbolic input."""
+    import itertools
+    import random
+    cands = {}
+    for k, v in inputs.items():
+        if not is_sym(v):
+            cands[k] = [v]
+            continue
+        lo, hi = (v.lo, v.hi) if hasattr(v, "lo") else (0, 1)
+        c = {lo, hi, 0, 1, -1, lo + 1, hi - 1}
+        for b in range(0, max(abs(lo), abs(hi)).bit_length() + 1):
+            for d in (-1, 0, 1):
+                c.add((1 << b) + d)
+                c.add(-(1 << b) + d)
+        cands[k] = sorted(x for x in c if lo <= x <= hi)
+    names = list(cands)
+    total = 1
+    for k in names:
+        total *= len(cands[k])
+    rnd = random.Random(0)
+    combos = itertools.product(*[cands[k] for k in names]) if total <= limit else \
+        (tuple(rnd.choice(cands[k]) for k in names) for _ in range(limit))
+    s = z3.Solver()
+    for a in assume:
+        s.add(a)
+    for combo in combos:
+        vals = dict(zip(names, combo))
+        # respect the preconditions
+        subst = [(inputs[k].term, z3.BitVecVal(vals[k], inputs[k].term.size())) for k in names if is_sym(inputs[k]) and hasattr(inputs[k], "lo")]
+        if assume and not all(z3.is_true(z3.simplify(z3.substitute(a, *subst))) for a in assume):
+            continue
+        cres, cexc = _call(fn, vals)
+        try:
+            ok = post(vals, cres, cexc)
+        except Exception:
+            ok = False
+        if not (ok is True or (not is_sym(ok) and bool(ok))):
+            return vals, cres, cexc
+    return None
 
 
 def _show(x):
